@@ -86,7 +86,7 @@ func thorough(id string, run func(p *Prog, r *Report), repo, verif string, r *Re
 	self, _ := os.Executable()
 	type res struct {
 		name, kind, outcome string
-		rules                []string
+		rules               []string
 	}
 	results := make([]res, len(vs))
 	sem := make(chan struct{}, 6)
